@@ -220,6 +220,16 @@ func runCursorCase(c fcase) cursorObs {
 	ctx := context.Background()
 	leaf := 0
 	qb := builderOf(c.Expr, &leaf, &c, false)
+	// the way a request reaches the store: the JSON body parsed by query.ParseJSON (the constructors
+	// above are the fall-back for what the body grammar cannot say)
+	if c.Expr.T != "none" {
+		l := 0
+		if body, err := json.Marshal(exprJSON(c.Expr, &l, &c, false)); err == nil {
+			if parsed, err := query.ParseJSON(string(body)); err == nil && parsed != nil {
+				qb = parsed
+			}
+		}
+	}
 	var p *ledger.Time
 	if c.Opt.Pit {
 		p = &pit
